@@ -477,8 +477,9 @@ def _post_submit(engine, st, ctx, out):
     incs = [e for e in st.trace if e.kind == "metric" and e.callee == "THROTTLE_QUEUE"]
     if isinstance(out, Raise):
         cn = engine.class_of_value(st, out.exc)
-        cl.append(("submit raises only RuntimeError (after shutdown), enqueuing nothing", "PC",
-                   z3.BoolVal(cn == "RuntimeError" and not apps), ["C11", "C07"]))
+        cl.append(("submit raises only RuntimeError (after shutdown), enqueuing nothing - in particular never the count callable's own exception "
+                   "(that one is logged by _eval_throttle and the last good value stays in force)", "PC",
+                   z3.BoolVal(cn == "RuntimeError" and not apps), ["C11", "C07", "C18"]))
         return cl
     from .base import track_clause
     cl.append(track_clause(engine, st, engine.to_val(st, out), "throttle", st.get("_name", sid)))
@@ -516,7 +517,7 @@ def _post_submit(engine, st, ctx, out):
     return cl
 
 
-UNITS.append(Unit("ThrottleExecutor.submit", "throttle.ThrottleExecutor.submit", ["C07", "C01", "C02", "C03", "C06", "C11", "C12", "C20"],
+UNITS.append(Unit("ThrottleExecutor.submit", "throttle.ThrottleExecutor.submit", ["C07", "C01", "C02", "C03", "C06", "C11", "C12", "C18", "C20"],
                   _setup_submit, _post_submit, cfg=_cfg_submit, self_cls="ThrottleExecutor"))
 
 REPLAYS = [("C07", "ThrottleExecutor._block_until_ready", "replay/c07_block_none.py"), ("C18", "ThrottleExecutor._block_until_ready", "replay/c07_block_none.py"),
